@@ -92,7 +92,7 @@ class SymBytes:
 
 class _BAMeta(type):
     def __instancecheck__(cls, obj):
-        return isinstance(obj, (_bbytearray, SymBytes))
+        return isinstance(obj, (_bbytearray, SymBytes)) or type(obj).__name__ == "SymArrayBytes"
 
     def __subclasscheck__(cls, sub):
         return sub is SymBytes or issubclass(sub, _bbytearray)
@@ -108,6 +108,8 @@ class pbytearray(_bbytearray, metaclass=_BAMeta):
             return SymBytes()
         if isinstance(x, SymBytes):
             return SymBytes(x.items)
+        if type(x).__name__ == "SymArrayBytes":
+            return x
         if isinstance(x, int) and not isinstance(x, bool):
             return SymBytes([0] * x)
         if isinstance(x, (bytes, _bbytearray)):
@@ -232,3 +234,43 @@ class _SymGridRow:
     def __iter__(self):
         for c in range(self.grid.cols):
             yield self.grid.get(self.r, c)
+
+
+class SymArrayBytes:
+    """bytearray stand-in of concrete length backed by a z3 array (symbolic indices never fork)."""
+
+    def __init__(self, name, length, arr=None):
+        self.length = length
+        self.arr = arr if arr is not None else z3.Array(name, z3.BitVecSort(32), z3.BitVecSort(8))
+        self.name = name
+
+    def __len__(self):
+        return self.length
+
+    def _idx(self, i):
+        if isinstance(i, slice):
+            raise core.Inconclusive("slice of a symbolic byte array")
+        ok = (i >= 0) & (i < self.length) if core.is_sym(i) else (0 <= i < self.length)
+        if not ok:
+            if not core.is_sym(i) and -self.length <= i < 0:
+                i = i + self.length
+            else:
+                raise IndexError("bytearray index out of range")
+        return z3.BitVecVal(i, 32) if isinstance(i, int) else z3.Extract(31, 0, i.t)
+
+    def __getitem__(self, i):
+        t = z3.Select(self.arr, self._idx(i))
+        ts = z3.simplify(t)
+        return ts.as_long() if z3.is_bv_value(ts) else SymInt.zext(t)
+
+    def __setitem__(self, i, v):
+        if core.is_sym(v):
+            ok = (v >= 0) & (v < 256)
+            if not ok:
+                raise ValueError("byte must be in range(0, 256)")
+        elif not (0 <= v < 256):
+            raise ValueError("byte must be in range(0, 256)")
+        self.arr = z3.Store(self.arr, self._idx(i), core.term_of(v, 8))
+
+    def __bool__(self):
+        return self.length > 0
